@@ -756,8 +756,108 @@ def _parser_item(it, res, parsers, sp, safe_yaml, wf_service, wb_service,
                                               entry='service-update:' + k))
                 if k == 'wf':
                     _check_cut(sp, safe_yaml, text, v2, res, d2)
+                else:
+                    _wb_fault(sp, safe_yaml, wb_service, text, res, d2)
             auth_context.set_ctx(None)
             boot.wipe_db()
+
+
+def _wb_members_match(sp, res, desc, when):
+    """Every workflow stored for a workbook is the workflow written in the
+    stored text of that workbook (and every workflow of the text is
+    stored)."""
+    from mistral.db.v2 import api as db_api
+    res['monitor_evaluations']['workbook-members'] = \
+        res['monitor_evaluations'].get('workbook-members', 0) + 1
+    for wb in db_api.get_workbooks():
+        try:
+            wb_spec = sp.get_workbook_spec_from_yaml(wb.definition)
+        except Exception:
+            continue
+        for wf in (wb_spec.get_workflows() or []):
+            name = '%s.%s' % (wb.name, wf.get_name())
+            row = db_api.load_workflow_definition(name)
+            if row is None:
+                problem = 'is not stored'
+            else:
+                try:
+                    same = fingerprint(sp.get_workflow_spec(row.spec)) == \
+                        fingerprint(wf)
+                except Exception as e:
+                    same = False
+                problem = None if same else \
+                    'is stored with another definition'
+            if problem:
+                res['violations'].append(dict(
+                    desc, prop='C14', monitor='workbook-members',
+                    mech='workbook-and-members-disagree',
+                    msg='%s: workflow %s of the stored workbook %s %s' % (
+                        when, name, wb.name, problem)))
+                return
+    wb_names = set(w.name for w in db_api.get_workbooks())
+    for row in db_api.get_workflow_definitions():
+        if '.' in row.name and row.name.split('.')[0] not in wb_names and \
+                when.startswith('after a failed create'):
+            res['violations'].append(dict(
+                desc, prop='C14', monitor='workbook-members',
+                mech='member-without-workbook',
+                msg='%s: workflow %s is stored, its workbook is not' % (
+                    when, row.name)))
+            return
+
+
+def _wb_fault(sp, safe_yaml, wb_service, text, res, desc):
+    """A database error while the members of a workbook are written (the
+    k-th member write fails): whatever the service call answers, the stored
+    workbook and its stored members still agree.  First an update of the
+    workbook just created (every workflow gets a new description), then a
+    create under a new name."""
+    from mistral.db.v2 import api as db_api
+    from oslo_db import exception as db_exc
+    try:
+        doc = safe_yaml.load(text)
+        wfs = doc.get('workflows')
+        if not isinstance(wfs, dict) or len(wfs) < 2 or \
+                not isinstance(doc.get('name'), str):
+            return
+        doc2 = json.loads(json.dumps(doc))
+        for w in doc2['workflows'].values():
+            if not isinstance(w, dict):
+                return
+            w['description'] = 'second version'
+        text2 = to_text(doc2)
+        doc3 = json.loads(json.dumps(doc))
+        doc3['name'] = doc['name'] + '_other'
+        text3 = to_text(doc3)
+    except Exception:
+        return
+    _wb_members_match(sp, res, desc, 'after create and update')
+    real = db_api.create_or_update_workflow_definition
+    for fn, txt, when in ((wb_service.update_workbook_v2, text2,
+                           'after a failed update'),
+                          (wb_service.create_workbook_v2, text3,
+                           'after a failed create')):
+        for k in (1, 2):
+            st = {'n': 0}
+
+            def faulty(*a, **kw):
+                st['n'] += 1
+                if st['n'] == k:
+                    raise db_exc.DBError('injected: connection lost')
+                return real(*a, **kw)
+            db_api.create_or_update_workflow_definition = faulty
+            try:
+                fn(txt)
+            except Exception:
+                pass
+            finally:
+                db_api.create_or_update_workflow_definition = real
+            if st['n'] >= k:
+                res['monitor_evaluations']['workbook-member-fault'] = \
+                    res['monitor_evaluations'].get(
+                        'workbook-member-fault', 0) + 1
+                _wb_members_match(sp, res, dict(desc, fault='member write '
+                                                '%d fails' % k), when)
 
 
 def _rest_item(it, res, R):
